@@ -12,13 +12,20 @@ import (
 	"errors"
 	"fmt"
 	"math/rand"
+	"os"
+	"os/exec"
+	"path/filepath"
 	"reflect"
+	"sort"
 	"strconv"
 	"strings"
+	"sync"
+	"sync/atomic"
 	"testing"
 	"time"
 	"unsafe"
 
+	"github.com/zeromicro/go-zero/core/collection"
 	"github.com/zeromicro/go-zero/core/logx"
 	"github.com/zeromicro/go-zero/core/timex"
 	"github.com/zeromicro/go-zero/internal/verifh"
@@ -45,6 +52,9 @@ var (
 	c01ErrA  = errors.New("acceptable error")
 	c01ErrU  = errors.New("unacceptable error")
 	c01ErrF  = errors.New("fallback result")
+	// what a request returns when the breaker of a downstream dependency is open: the breaker's own
+	// rejection error, wrapped with %w. An ADMITTED call must hand exactly this value back.
+	c01ErrWB = fmt.Errorf("downstream: %w", ErrServiceUnavailable)
 	c01Panic = "c01 request panic"
 )
 
@@ -120,156 +130,540 @@ func c01RetClass(err error) string {
 	return "other"
 }
 
-func TestVerifC01(t *testing.T) {
-	logx.Disable()
-	defer timex.VerifClockOff()
-	secs := verifh.Sections(c01Gen)
-	verifh.Run(t, secs, func(cfg verifh.Cfg) (func(op []string) string, func()) {
-		t0 := verifh.Atoi64(cfg.Str("t0", "1"))
-		timex.VerifSetNow(time.Duration(t0))
-		cb := NewBreaker()
-		gb := c01Unwrap(cb)
-		src := &c01Src{}
-		c01InstallSource(gb, src)
-		var promises []Promise
+// c01Ent is one breaker under test with its scripted source and the promises it handed out.
+type c01Ent struct {
+	cb       Breaker
+	gb       *googleBreaker
+	src      *c01Src
+	promises []Promise
+}
 
-		step := func(op []string) string {
-			switch op[0] {
-			case "t+":
-				dt := verifh.Atoi64(op[1])
-				if dt < 0 {
-					panic("verif c01: negative gap")
+func c01NewEnt(cb Breaker) *c01Ent {
+	e := &c01Ent{cb: cb, gb: c01Unwrap(cb), src: &c01Src{}}
+	c01InstallSource(e.gb, e.src)
+	return e
+}
+
+var c01Seq atomic.Int64
+
+// c01Outcome is what the request of a Do* call does.
+func c01Req(outcome string, runs *int) func() error {
+	return func() error {
+		*runs++
+		switch outcome {
+		case "ok":
+			return nil
+		case "erra":
+			return c01ErrA
+		case "erru":
+			return c01ErrU
+		case "brk":
+			return ErrServiceUnavailable
+		case "wbrk":
+			return c01ErrWB
+		case "panic":
+			panic(c01Panic)
+		}
+		panic("verif c01: bad outcome " + outcome)
+	}
+}
+
+// c01Want is the error value the request of this outcome returns (identity matters).
+func c01Want(outcome string) error {
+	switch outcome {
+	case "erra":
+		return c01ErrA
+	case "erru":
+		return c01ErrU
+	case "brk":
+		return ErrServiceUnavailable
+	case "wbrk":
+		return c01ErrWB
+	}
+	return nil
+}
+
+func c01Acc(err error) bool { return err == nil || err == c01ErrA }
+
+// c01Do makes one Do* call: through the Breaker's methods, or (name != "") through the package-level
+// functions of breakers.go, which look the breaker up by name.
+func c01Do(cb Breaker, name, entry string, ctx context.Context, useCtx bool, req func() error, fb Fallback) error {
+	if name == "" {
+		switch entry {
+		case "do":
+			if useCtx {
+				return cb.DoCtx(ctx, req)
+			}
+			return cb.Do(req)
+		case "doacc":
+			if useCtx {
+				return cb.DoWithAcceptableCtx(ctx, req, c01Acc)
+			}
+			return cb.DoWithAcceptable(req, c01Acc)
+		case "dofb":
+			if useCtx {
+				return cb.DoWithFallbackCtx(ctx, req, fb)
+			}
+			return cb.DoWithFallback(req, fb)
+		case "dofbacc":
+			if useCtx {
+				return cb.DoWithFallbackAcceptableCtx(ctx, req, fb, c01Acc)
+			}
+			return cb.DoWithFallbackAcceptable(req, fb, c01Acc)
+		}
+		panic("verif c01: bad entry " + entry)
+	}
+	switch entry {
+	case "do":
+		if useCtx {
+			return DoCtx(ctx, name, req)
+		}
+		return Do(name, req)
+	case "doacc":
+		if useCtx {
+			return DoWithAcceptableCtx(ctx, name, req, c01Acc)
+		}
+		return DoWithAcceptable(name, req, c01Acc)
+	case "dofb":
+		if useCtx {
+			return DoWithFallbackCtx(ctx, name, req, fb)
+		}
+		return DoWithFallback(name, req, fb)
+	case "dofbacc":
+		if useCtx {
+			return DoWithFallbackAcceptableCtx(ctx, name, req, fb, c01Acc)
+		}
+		return DoWithFallbackAcceptable(name, req, fb, c01Acc)
+	}
+	panic("verif c01: bad entry " + entry)
+}
+
+// c01Par: g goroutines make k calls each on e.cb while the virtual clock stands still. Every goroutine
+// derives its calls from (mix, index) and checks the accounting of each of its own calls; the totals are
+// what the callers saw (admitted as success / as failure / rejected).
+func c01Par(e *c01Ent, g, k, failPct int, mix uint64) string {
+	type res struct{ succ, fail, rej, bad int }
+	results := make([]res, g)
+	var wg sync.WaitGroup
+	for gi := 0; gi < g; gi++ {
+		wg.Add(1)
+		go func(gi int) {
+			defer wg.Done()
+			r := verifh.NewRng(mix*1000003 + uint64(gi))
+			out := &results[gi]
+			for j := 0; j < k; j++ {
+				outcome := r.PickS("ok", "ok", "ok", "erra")
+				if r.Intn(100) < failPct {
+					outcome = r.PickS("erru", "erru", "erru", "panic", "erra", "brk", "wbrk")
 				}
-				timex.VerifAdvance(time.Duration(dt))
-				return c01State(gb)
-			case "dump":
-				var items []string
-				n := 0
-				gb.stat.Reduce(func(b *bucket) {
-					if b.Sum != 0 || b.Success != 0 || b.Failure != 0 || b.Drop != 0 {
-						items = append(items, fmt.Sprintf("%d:%d/%d/%d/%d", n, b.Sum, b.Success, b.Failure, b.Drop))
+				kind := r.PickS("do", "doacc", "dofb", "dofbacc", "allow", "allow")
+				if kind == "allow" {
+					p, err := e.cb.Allow()
+					switch err {
+					case nil:
+						if outcome == "ok" || outcome == "erra" {
+							p.Accept()
+							out.succ++
+						} else {
+							p.Reject("verif")
+							out.fail++
+						}
+					case ErrServiceUnavailable:
+						out.rej++
+					default:
+						out.bad++
 					}
-					n++
-				})
-				return strings.TrimSpace(fmt.Sprintf("n=%d %s", n, strings.Join(items, " ")))
-			case "do":
-				entry, outcome := op[1], op[2]
-				ctx, useCtx := c01Ctx(op[3])
-				c01Draw(src, op[4])
+					continue
+				}
 				reqRuns, fbRuns := 0, 0
-				fbArg := "-"
-				req := func() error {
-					reqRuns++
-					switch outcome {
-					case "ok":
-						return nil
-					case "erra":
-						return c01ErrA
-					case "erru":
-						return c01ErrU
-					case "panic":
-						panic(c01Panic)
-					}
-					panic("verif c01: bad outcome " + outcome)
-				}
-				acc := func(err error) bool { return err == nil || err == c01ErrA }
 				fb := func(err error) error {
 					fbRuns++
-					if err == ErrServiceUnavailable {
-						fbArg = "unavail"
-					} else {
-						fbArg = "other"
+					if err != ErrServiceUnavailable {
+						fbRuns += 100
 					}
 					return c01ErrF
 				}
+				hasFb := kind == "dofb" || kind == "dofbacc"
+				custom := kind == "doacc" || kind == "dofbacc"
 				var err error
-				panicked := "0"
+				panicked := false
 				func() {
 					defer func() {
 						if p := recover(); p != nil {
-							if s, ok := p.(string); ok && s == c01Panic {
-								panicked = "1"
-							} else {
-								panicked = "other"
+							panicked = true
+							if s, ok := p.(string); !ok || s != c01Panic {
+								out.bad++
 							}
 						}
 					}()
-					switch entry {
-					case "do":
-						if useCtx {
-							err = cb.DoCtx(ctx, req)
+					err = c01Do(e.cb, "", kind, context.Background(), r.Chance(1, 4), c01Req(outcome, &reqRuns), fb)
+				}()
+				switch reqRuns {
+				case 0:
+					out.rej++
+					want := ErrServiceUnavailable
+					wantFb := 0
+					if hasFb {
+						want, wantFb = c01ErrF, 1
+					}
+					if panicked || err != want || fbRuns != wantFb {
+						out.bad++
+					}
+				case 1:
+					accepted := outcome == "ok" || (custom && outcome == "erra")
+					if accepted {
+						out.succ++
+					} else {
+						out.fail++
+					}
+					want := c01Want(outcome)
+					if fbRuns != 0 || panicked != (outcome == "panic") || (!panicked && err != want) {
+						out.bad++
+					}
+				default:
+					out.bad++
+				}
+			}
+		}(gi)
+	}
+	wg.Wait()
+	var t res
+	for _, x := range results {
+		t.succ += x.succ
+		t.fail += x.fail
+		t.rej += x.rej
+		t.bad += x.bad
+	}
+	return fmt.Sprintf("calls=%d succ=%d fail=%d rej=%d bad=%d %s", g*k, t.succ, t.fail, t.rej, t.bad, c01State(e.gb))
+}
+
+// c01RunRW executes a section on a bare RollingWindow[int64,*bucket] of the size / interval named in the cfg.
+func c01RunRW(cfg verifh.Cfg) (func(op []string) string, func()) {
+	t0 := verifh.Atoi64(cfg.Str("t0", "1"))
+	size := cfg.Int("size", 0)
+	iv := verifh.Atoi64(cfg.Str("iv", "0"))
+	timex.VerifSetNow(time.Duration(t0))
+	w := collection.NewRollingWindow[int64, *bucket](func() *bucket { return new(bucket) }, size, time.Duration(iv))
+	state := func() string {
+		var s bucket
+		n := 0
+		w.Reduce(func(b *bucket) {
+			n++
+			s.Sum += b.Sum
+			s.Success += b.Success
+			s.Failure += b.Failure
+			s.Drop += b.Drop
+		})
+		return fmt.Sprintf("n=%d w=%d/%d/%d/%d", n, s.Sum, s.Success, s.Failure, s.Drop)
+	}
+	return func(op []string) string {
+		switch op[0] {
+		case "t+":
+			dt := verifh.Atoi64(op[1])
+			if dt < 0 {
+				panic("verif c01: negative gap")
+			}
+			timex.VerifAdvance(time.Duration(dt))
+			return state()
+		case "add":
+			switch op[1] {
+			case "succ":
+				w.Add(success)
+			case "fail":
+				w.Add(fail)
+			case "drop":
+				w.Add(drop)
+			default:
+				panic("verif c01: bad mark " + op[1])
+			}
+			return state()
+		case "dump":
+			var items []string
+			n := 0
+			w.Reduce(func(b *bucket) {
+				if b.Sum != 0 || b.Success != 0 || b.Failure != 0 || b.Drop != 0 {
+					items = append(items, fmt.Sprintf("%d:%d/%d/%d/%d", n, b.Sum, b.Success, b.Failure, b.Drop))
+				}
+				n++
+			})
+			return strings.TrimSpace(fmt.Sprintf("n=%d %s", n, strings.Join(items, " ")))
+		}
+		return "bad-op"
+	}, nil
+}
+
+func c01Start(cfg verifh.Cfg) (func(op []string) string, func()) {
+	if cfg.Str("kind", "") == "rw" {
+		return c01RunRW(cfg)
+	}
+	if cfg.Str("kind", "") == "race" {
+		// the verdict of the race detector is appended by the parent process; nothing to execute on a replay
+		return func([]string) string { return "total=0 known-errorwindow=0 unknown=0" }, nil
+	}
+	named := cfg.Str("kind", "") == "named"
+	t0 := verifh.Atoi64(cfg.Str("t0", "1"))
+	timex.VerifSetNow(time.Duration(t0))
+	sec := c01Seq.Add(1)
+	// names that a sloppy lookup would confuse: b extends a (same prefix, one more path segment), c equals a
+	// up to letter case
+	realName := func(n string) string {
+		switch n {
+		case "b":
+			return fmt.Sprintf("c01-%d-a/b", sec)
+		case "c":
+			return fmt.Sprintf("C01-%d-A", sec)
+		}
+		return fmt.Sprintf("c01-%d-%s", sec, n)
+	}
+	ents := map[string]*c01Ent{}
+	var order []string
+	get := func(name string) *c01Ent {
+		if e, ok := ents[name]; ok {
+			return e
+		}
+		var e *c01Ent
+		if named {
+			e = c01NewEnt(GetBreaker(realName(name)))
+		} else {
+			e = c01NewEnt(NewBreaker())
+		}
+		ents[name] = e
+		order = append(order, name)
+		return e
+	}
+	if !named {
+		get("")
+	}
+
+	step := func(op []string) string {
+		name := ""
+		if named && op[0] != "t+" {
+			name = c01KV(op[len(op)-1], "name")
+			op = op[:len(op)-1]
+		}
+		tail := func(e *c01Ent) string {
+			if !named {
+				return ""
+			}
+			var oth int64
+			for _, n := range order {
+				if n != name {
+					ents[n].gb.stat.Reduce(func(b *bucket) { oth += b.Sum })
+				}
+			}
+			return fmt.Sprintf(" oth=%d", oth)
+		}
+		switch op[0] {
+		case "t+":
+			dt := verifh.Atoi64(op[1])
+			if dt < 0 {
+				panic("verif c01: negative gap")
+			}
+			timex.VerifAdvance(time.Duration(dt))
+			if !named {
+				return c01State(get("").gb)
+			}
+			var parts []string
+			for _, n := range order {
+				parts = append(parts, n+" "+c01State(ents[n].gb))
+			}
+			if len(parts) == 0 {
+				return "ok"
+			}
+			return strings.Join(parts, " | ")
+		case "dump":
+			e := get(name)
+			var items []string
+			n := 0
+			e.gb.stat.Reduce(func(b *bucket) {
+				if b.Sum != 0 || b.Success != 0 || b.Failure != 0 || b.Drop != 0 {
+					items = append(items, fmt.Sprintf("%d:%d/%d/%d/%d", n, b.Sum, b.Success, b.Failure, b.Drop))
+				}
+				n++
+			})
+			return strings.TrimSpace(fmt.Sprintf("n=%d %s", n, strings.Join(items, " "))) + tail(e)
+		case "par":
+			e := get(name)
+			c01Draw(e.src, op[5])
+			return c01Par(e, verifh.Atoi(c01KV(op[1], "g")), verifh.Atoi(c01KV(op[2], "k")), verifh.Atoi(c01KV(op[3], "fp")),
+				uint64(verifh.Atoi64(c01KV(op[4], "mix"))))
+		case "do":
+			e := get(name)
+			entry, outcome := op[1], op[2]
+			ctx, useCtx := c01Ctx(op[3])
+			c01Draw(e.src, op[4])
+			reqRuns, fbRuns := 0, 0
+			fbArg := "-"
+			fb := func(err error) error {
+				fbRuns++
+				if err == ErrServiceUnavailable {
+					fbArg = "unavail"
+				} else {
+					fbArg = "other"
+				}
+				return c01ErrF
+			}
+			var err error
+			panicked := "0"
+			func() {
+				defer func() {
+					if p := recover(); p != nil {
+						if s, ok := p.(string); ok && s == c01Panic {
+							panicked = "1"
 						} else {
-							err = cb.Do(req)
+							panicked = "other"
 						}
-					case "doacc":
-						if useCtx {
-							err = cb.DoWithAcceptableCtx(ctx, req, acc)
-						} else {
-							err = cb.DoWithAcceptable(req, acc)
-						}
-					case "dofb":
-						if useCtx {
-							err = cb.DoWithFallbackCtx(ctx, req, fb)
-						} else {
-							err = cb.DoWithFallback(req, fb)
-						}
-					case "dofbacc":
-						if useCtx {
-							err = cb.DoWithFallbackAcceptableCtx(ctx, req, fb, acc)
-						} else {
-							err = cb.DoWithFallbackAcceptable(req, fb, acc)
-						}
-					default:
-						panic("verif c01: bad entry " + entry)
 					}
 				}()
-				ret := c01RetClass(err)
-				if panicked != "0" {
-					ret = "none"
+				rn := ""
+				if named {
+					rn = realName(name)
 				}
-				return fmt.Sprintf("req=%d fb=%d ret=%s panic=%s fbarg=%s drew=%d %s", reqRuns, fbRuns, ret, panicked, fbArg,
-					src.calls, c01State(gb))
-			case "allow":
-				ctx, useCtx := c01Ctx(op[1])
-				c01Draw(src, op[2])
-				var p Promise
-				var err error
-				if useCtx {
-					p, err = cb.AllowCtx(ctx)
-				} else {
-					p, err = cb.Allow()
-				}
-				v := "other"
-				switch err {
-				case nil:
-					v = "pass"
-				case ErrServiceUnavailable:
-					v = "reject"
-					p = nil
-				case context.Canceled:
-					v = "ctx"
-					p = nil
-				default:
-					p = nil
-				}
-				promises = append(promises, p)
-				return fmt.Sprintf("v=%s drew=%d %s", v, src.calls, c01State(gb))
-			case "accept", "reject":
-				i := verifh.Atoi(op[1])
-				if i < 0 || i >= len(promises) || promises[i] == nil {
-					return "nopromise " + c01State(gb)
-				}
-				if op[0] == "accept" {
-					promises[i].Accept()
-				} else {
-					promises[i].Reject("verif")
-				}
-				return "ok " + c01State(gb)
+				err = c01Do(e.cb, rn, entry, ctx, useCtx, c01Req(outcome, &reqRuns), fb)
+			}()
+			ret := c01RetClass(err)
+			if reqRuns > 0 && err != nil && err == c01Want(outcome) {
+				// the request's own error came back unchanged (identity, not errors.Is): named after the outcome,
+				// so that the request's own ErrServiceUnavailable ("brk") differs from a rejection ("unavail")
+				ret = outcome
 			}
-			return "bad-op"
+			if panicked != "0" {
+				ret = "none"
+			}
+			return fmt.Sprintf("req=%d fb=%d ret=%s panic=%s fbarg=%s drew=%d %s", reqRuns, fbRuns, ret, panicked, fbArg,
+				e.src.calls, c01State(e.gb)) + tail(e)
+		case "allow":
+			e := get(name)
+			ctx, useCtx := c01Ctx(op[1])
+			c01Draw(e.src, op[2])
+			cb := e.cb
+			if named {
+				cb = GetBreaker(realName(name))
+			}
+			var p Promise
+			var err error
+			if useCtx {
+				p, err = cb.AllowCtx(ctx)
+			} else {
+				p, err = cb.Allow()
+			}
+			v := "other"
+			switch err {
+			case nil:
+				v = "pass"
+			case ErrServiceUnavailable:
+				v = "reject"
+				p = nil
+			case context.Canceled:
+				v = "ctx"
+				p = nil
+			default:
+				p = nil
+			}
+			e.promises = append(e.promises, p)
+			return fmt.Sprintf("v=%s drew=%d %s", v, e.src.calls, c01State(e.gb)) + tail(e)
+		case "accept", "reject":
+			e := get(name)
+			i := verifh.Atoi(op[1])
+			if i < 0 || i >= len(e.promises) || e.promises[i] == nil {
+				return "nopromise " + c01State(e.gb) + tail(e)
+			}
+			if op[0] == "accept" {
+				e.promises[i].Accept()
+			} else {
+				// the reason is free text for the error log; it must not influence the accounting
+				e.promises[i].Reject([]string{"", "verif", "503 Service Unavailable"}[i%3])
+			}
+			return "ok " + c01State(e.gb) + tail(e)
 		}
-		return step, nil
-	})
+		return "bad-op"
+	}
+	return step, nil
+}
+
+func TestVerifC01(t *testing.T) {
+	logx.Disable()
+	defer timex.VerifClockOff()
+	verifh.Run(t, verifh.Sections(c01Gen), c01Start)
+}
+
+// TestVerifC01Conc is built with -race: sections made of concurrent phases (`par`) between sequential ops.
+// The race detector's verdict becomes part of the trace: the test re-executes itself with
+// GORACE="exitcode=0 log_path=…", then appends a section `kind=race` whose single line lists how many
+// distinct data races were reported and the first frames of those that are not the known one
+// (errorWindow.String reading ew.count before taking the lock, fixes/C01-errorwindow-race.patch: a race in
+// the logging side channel that the property does not talk about). The driver turns every other race into a
+// violation of the property's "every concurrent interleaving" clause.
+func TestVerifC01Conc(t *testing.T) {
+	logx.Disable()
+	if c01RaceBuild && os.Getenv("VERIF_C01_RACE_CHILD") == "" {
+		c01RaceParent(t)
+		return
+	}
+	defer timex.VerifClockOff()
+	verifh.Run(t, verifh.Sections(c01GenConc), c01Start)
+}
+
+func c01RaceParent(t *testing.T) {
+	dir := t.TempDir()
+	logp := filepath.Join(dir, "race")
+	cmd := exec.Command(os.Args[0], "-test.run", "^TestVerifC01Conc$", "-test.count=1", "-test.timeout", "1200s")
+	cmd.Env = append(os.Environ(), "VERIF_C01_RACE_CHILD=1", "GORACE=exitcode=0 halt_on_error=0 log_path="+logp)
+	// the testing package marks the child FAILED when the detector reported anything; that verdict is
+	// re-derived below from the detector's log, so only other failures of the child are fatal here
+	if out, err := cmd.CombinedOutput(); err != nil &&
+		(!strings.Contains(string(out), "race detected during execution of test") || strings.Contains(string(out), "panic:")) {
+		t.Fatalf("verif c01: race child failed: %v\n%s", err, out)
+	}
+	total, known := 0, 0
+	var unknown []string
+	files, _ := filepath.Glob(logp + ".*")
+	sort.Strings(files)
+	for _, f := range files {
+		data, err := os.ReadFile(f)
+		if err != nil {
+			t.Fatal(err)
+		}
+		for _, rep := range strings.Split(string(data), "==================") {
+			if !strings.Contains(rep, "WARNING: DATA RACE") {
+				continue
+			}
+			total++
+			// first frame of each of the two accesses
+			var tops []string
+			lines := strings.Split(rep, "\n")
+			for i, ln := range lines {
+				if (strings.HasPrefix(ln, "Read at") || strings.HasPrefix(ln, "Write at") ||
+					strings.HasPrefix(ln, "Previous read at") || strings.HasPrefix(ln, "Previous write at")) && i+1 < len(lines) {
+					fr := strings.TrimSpace(lines[i+1])
+					fr = strings.TrimPrefix(fr, "github.com/zeromicro/go-zero/")
+					tops = append(tops, strings.ReplaceAll(fr, " ", ""))
+				}
+			}
+			sort.Strings(tops)
+			key := strings.Join(tops, "+")
+			if key == "core/breaker.(*errorWindow).String()+core/breaker.(*errorWindow).add()" {
+				known++
+			} else {
+				unknown = append(unknown, key)
+			}
+		}
+	}
+	sort.Strings(unknown)
+	line := fmt.Sprintf("races => total=%d known-errorwindow=%d unknown=%d", total, known, len(unknown))
+	if len(unknown) > 0 {
+		line += " first=" + unknown[0]
+	}
+	if p := os.Getenv("VERIF_TRACE_OUT"); p != "" {
+		f, err := os.OpenFile(p, os.O_APPEND|os.O_WRONLY, 0o644)
+		if err != nil {
+			t.Fatal(err)
+		}
+		defer f.Close()
+		fmt.Fprintf(f, "begin kind=race\n%s\nend\n", line)
+	} else {
+		fmt.Printf("begin kind=race\n%s\nend\n", line)
+	}
 }
 
 // ---------------------------------------------------------------------------------------------
@@ -280,6 +674,30 @@ type c01G struct {
 	ops    []string
 	allows int
 	calls  int // calls issued since the last long gap (rough shadow of `total` under total failure)
+	// named sections: the names in use, the one the next op goes to, and the allow counters per name
+	names    []string
+	name     string
+	allowsBy map[string]int
+}
+
+// emit appends an op (with the name= suffix in named sections).
+func (g *c01G) emit(op string) {
+	if g.name != "" {
+		op += " name=" + g.name
+	}
+	g.ops = append(g.ops, op)
+}
+
+// pickName chooses the breaker of the next op in a named section (the first name gets most of the traffic).
+func (g *c01G) pickName() {
+	if len(g.names) == 0 {
+		return
+	}
+	g.name = g.names[0]
+	if g.r.Chance(2, 5) {
+		g.name = g.names[g.r.Intn(len(g.names))]
+	}
+	g.allows = g.allowsBy[g.name]
 }
 
 func (g *c01G) gap(dt int64) {
@@ -334,7 +752,8 @@ func (g *c01G) call(outcome string, u int64) {
 }
 
 func (g *c01G) callE(entry, outcome, ctx string, u int64) {
-	g.ops = append(g.ops, fmt.Sprintf("do %s %s ctx=%s u=%d", entry, outcome, ctx, u))
+	g.pickName()
+	g.emit(fmt.Sprintf("do %s %s ctx=%s u=%d", entry, outcome, ctx, u))
 	if ctx != "done" {
 		g.calls++
 	}
@@ -342,21 +761,25 @@ func (g *c01G) callE(entry, outcome, ctx string, u int64) {
 
 func (g *c01G) allow(u int64, resolve string) {
 	ctx := g.ctx()
-	g.ops = append(g.ops, fmt.Sprintf("allow ctx=%s u=%d", ctx, u))
+	g.pickName()
+	g.emit(fmt.Sprintf("allow ctx=%s u=%d", ctx, u))
 	id := g.allows
 	g.allows++
+	if g.name != "" {
+		g.allowsBy[g.name] = g.allows
+	}
 	if ctx != "done" {
 		g.calls++
 	}
 	switch resolve {
 	case "accept", "reject":
-		g.ops = append(g.ops, fmt.Sprintf("%s %d", resolve, id))
+		g.emit(fmt.Sprintf("%s %d", resolve, id))
 	}
 }
 
 func (g *c01G) outcome(failPct int) string {
 	if g.r.Intn(100) < failPct {
-		return g.r.PickS("erru", "erru", "erru", "panic", "erra")
+		return g.r.PickS("erru", "erru", "erru", "panic", "erra", "brk", "wbrk")
 	}
 	return g.r.PickS("ok", "ok", "ok", "erra")
 }
@@ -402,9 +825,61 @@ func c01Gen(r *verifh.Rng) []verifh.Section {
 		t0 := int64(r.Pick(1, 2, 250000000, 999999999, 1000000000, 1000000001)) + int64(r.Intn(3))*int64(r.Intn(1000000000))
 		now := t0
 		adv := func(dt int64) { g.gap(dt); now += dt }
-		kind := i % 8
+		kind := i % 11
 		if kind == 7 {
 			kind = r.Intn(7)
+		}
+		cfgKind := ""
+		switch kind {
+		case 8:
+			// one breaker per name (breakers.go): the package-level Do*(name, …) / GetBreaker(name).Allow();
+			// mostly failing traffic on the first name so that it throttles while the others must stay untouched
+			cfgKind = "kind=named "
+			g.names = []string{"a", "b", "c"}[:r.Range(2, 3)]
+			g.allowsBy = map[string]int{}
+			for j := 0; j < r.Range(30, verifh.Scale(80, 160)); j++ {
+				switch x := r.Intn(100); {
+				case x < 60:
+					g.call(g.outcome(r.Pick(70, 90)), g.draw())
+				case x < 75:
+					g.allow(g.draw(), r.PickS("accept", "reject", "reject", "none"))
+				case x < 80:
+					g.pickName()
+					g.emit(fmt.Sprintf("%s %d", r.PickS("accept", "reject"), r.Intn(g.allows+1)))
+				case x < 84:
+					g.pickName()
+					g.emit("dump")
+				default:
+					adv(g.smallGap())
+				}
+			}
+			g.name = ""
+		case 9:
+			// a bare RollingWindow of any geometry (the code is generic; the breaker's 40 x 250ms is one instance)
+			size := r.Pick(1, 1, 2, 3, 5, 7, 40)
+			iv := c01Pick64(r, 1, 2, 7, 1000, c01Bucket)
+			cfgKind = fmt.Sprintf("kind=rw size=%d iv=%d ", size, iv)
+			for j := 0; j < r.Range(20, verifh.Scale(70, 200)); j++ {
+				switch x := r.Intn(100); {
+				case x < 50:
+					g.ops = append(g.ops, "add "+r.PickS("succ", "fail", "drop"))
+				case x < 58:
+					g.ops = append(g.ops, "dump")
+				case x < 70:
+					g.gap(iv*int64(r.Range(0, size+1)) + int64(r.Range(-1, 1)))
+				case x < 78:
+					g.gap(iv*int64(size) + int64(r.Range(-1, 1)))
+				case x < 84:
+					g.gap(iv * int64(size) * int64(r.Range(2, 5)))
+				case x < 92:
+					g.gap(int64(r.Range(0, int(iv))))
+				default:
+					g.gap(iv)
+				}
+			}
+			g.ops = append(g.ops, "dump")
+		case 10:
+			c01ParSection(g, adv, 3, 6)
 		}
 		switch kind {
 		case 0:
@@ -429,7 +904,7 @@ func c01Gen(r *verifh.Rng) []verifh.Section {
 			// total failure storm, then probing around 1 s after every throttled admission
 			n := r.Range(8, 40)
 			for j := 0; j < n; j++ {
-				g.call(r.PickS("erru", "erru", "panic"), g.draw())
+				g.call(r.PickS("erru", "erru", "panic", "brk", "wbrk"), g.draw())
 				if r.Chance(1, 3) {
 					adv(int64(r.Range(0, 30)) * 1000000)
 				}
@@ -452,7 +927,7 @@ func c01Gen(r *verifh.Rng) []verifh.Section {
 				if r.Chance(1, 5) {
 					g.allow(u, "reject")
 				} else {
-					g.callE(r.PickS("do", "dofb", "dofbacc", "doacc"), r.PickS("erru", "erru", "panic", "ok"), g.ctx(), u)
+					g.callE(r.PickS("do", "dofb", "dofbacc", "doacc"), r.PickS("erru", "erru", "panic", "ok", "brk", "wbrk"), g.ctx(), u)
 				}
 			}
 		case 2:
@@ -500,7 +975,7 @@ func c01Gen(r *verifh.Rng) []verifh.Section {
 				cnt := r.Range(1, 4)
 				for c := 0; c < cnt; c++ {
 					if fail {
-						g.call(r.PickS("erru", "panic"), int64(r.Pick(0, 0, 1))*g.draw())
+						g.call(r.PickS("erru", "panic", "wbrk"), int64(r.Pick(0, 0, 1))*g.draw())
 					} else {
 						g.call(r.PickS("ok", "erra"), g.draw())
 					}
@@ -544,6 +1019,43 @@ func c01Gen(r *verifh.Rng) []verifh.Section {
 			g.ops = append(g.ops, "dump")
 		}
 		_ = now
+		secs = append(secs, verifh.Section{Cfg: fmt.Sprintf("%st0=%d", cfgKind, t0), Ops: g.ops})
+	}
+	return secs
+}
+
+// c01ParSection: concurrent phases (clock frozen inside a phase) between sequential calls and gaps.
+func c01ParSection(g *c01G, adv func(int64), maxG, maxK int) {
+	r := g.r
+	for ph := 0; ph < r.Range(3, 8); ph++ {
+		failPct := r.Pick(0, 30, 70, 95, 100)
+		u := c01Pick64(r, 0, 0, 1, c01Pow53/2, c01Pow53-1)
+		g.ops = append(g.ops, fmt.Sprintf("par g=%d k=%d fp=%d mix=%d u=%d", r.Range(2, maxG), r.Range(1, maxK), failPct,
+			r.Intn(1000000), u))
+		switch r.Intn(6) {
+		case 0:
+			adv(c01Sec + int64(r.Range(-1, 1)))
+		case 1:
+			adv(c01Bucket * int64(r.Range(0, 3)))
+		case 2:
+			adv(c01Win + int64(r.Range(-1, 1)))
+		case 3:
+			adv(g.smallGap())
+		}
+		for j := 0; j < r.Intn(4); j++ {
+			g.call(g.outcome(failPct), g.draw())
+		}
+	}
+	g.ops = append(g.ops, "dump")
+}
+
+// c01GenConc: the sections of the -race harness.
+func c01GenConc(r *verifh.Rng) []verifh.Section {
+	var secs []verifh.Section
+	for i := 0; i < verifh.Scale(24, 300); i++ {
+		g := &c01G{r: r.Fork()}
+		t0 := int64(r.Pick(1, 250000000, 1000000001)) + int64(r.Intn(1000000000))
+		c01ParSection(g, func(dt int64) { g.gap(dt) }, 12, 25)
 		secs = append(secs, verifh.Section{Cfg: fmt.Sprintf("t0=%d", t0), Ops: g.ops})
 	}
 	return secs
